@@ -176,7 +176,50 @@ func openImage(fs *memFS, dir string, cfg Config, u *Universe, oo ObsOpts) image
 	return imageResult{Obs: o}
 }
 
+// continueAfterRecovery uses the database recovered from a crash image: one more write transaction
+// (variant 0: a small record; 1: a record of about 60 % of a segment; 2: a record that fills a whole
+// segment, so the log always rotates past whatever the crash left at the tail), then Close and Open.
+// The new write must not disturb the recovered contents, the second Open must succeed and show the
+// same contents plus the new pair.
+func continueAfterRecovery(dir string, cfg Config, u *Universe, oo ObsOpts, recovered *Observation, variant int, cp crashPoint) error {
+	h, err := OpenDB(dir, cfg)
+	if err != nil {
+		return fmt.Errorf("second Open of the crash image at %s failed: %v", cp, err)
+	}
+	defer func() { h.Close() }()
+	const bucket, key = "post", "k"
+	n := 1
+	switch variant {
+	case 1:
+		n = int(cfg.Seg) * 6 / 10
+	case 2:
+		n = int(cfg.Seg) - 42 - len(bucket) - len(key)
+	}
+	val := strings.Repeat("p", n)
+	tr := h.RunTx(Step{K: "tx", Ops: []Op{{K: "put", B: bucket, Key: key, V: S(val)}}}, true, nil)
+	if tr.Panic != "" || tr.BeginErr != nil || tr.CommitErr != nil || !tr.Committed {
+		return fmt.Errorf("after recovery from the crash at %s a put of %d bytes failed: panic=%q begin=%v commit=%v", cp, n, tr.Panic, tr.BeginErr, tr.CommitErr)
+	}
+	o1 := Observe(h, u, oo)
+	if d := DiffObs(recovered, o1); d != "" {
+		return fmt.Errorf("after recovery from the crash at %s a put into another bucket changed the recovered contents: %s", cp, d)
+	}
+	if err := h.Reopen(); err != nil {
+		return fmt.Errorf("crash at %s, recovery, one more put of %d bytes, Close: the next Open failed: %v", cp, n, err)
+	}
+	o2 := Observe(h, u, oo)
+	if d := DiffObs(o1, o2); d != "" {
+		return fmt.Errorf("crash at %s, recovery, one more put, Close, Open: contents changed: %s", cp, d)
+	}
+	tr = h.RunTx(Step{K: "view", Ops: []Op{{K: "get", B: bucket, Key: key}}}, false, nil)
+	if len(tr.Res) != 1 || tr.Res[0].Err || len(tr.Res[0].Items) != 1 || !strings.Contains(tr.Res[0].Items[0], q(val)) {
+		return fmt.Errorf("crash at %s, recovery, one more put of %d bytes, Close, Open: the pair written after recovery is lost (%v)", cp, n, tr.Res)
+	}
+	return nil
+}
+
 type crashOpts struct {
+	Continue   bool // after every 3rd torn image and every 4th other image: write, close and open again
 	CheckState bool // C10/C16: recovered state must be O_c or O_{c+1}
 	OnlyMerge  bool // C16: only positions inside Merge
 	Torn       bool
@@ -184,7 +227,7 @@ type crashOpts struct {
 }
 
 type crashStats struct {
-	Images, Distinct, InCommit, TornHeader, InMerge, InRotation int
+	Images, Distinct, InCommit, TornHeader, InMerge, InRotation, Continued int
 }
 
 // exploreCrashes enumerates the crash images of a recording.
@@ -209,6 +252,12 @@ func exploreCrashes(c Case, rc *recording, co crashOpts, st *Stats, prop string)
 		}
 		if res.Obs.Panic != "" {
 			return fmt.Errorf("reads panicked on the crash image at %s: %s", cp, res.Obs.Panic)
+		}
+		if co.Continue && ((cp.Torn >= 0 && cs.Images%3 == 0) || (cp.Torn < 0 && cs.Images%4 == 1)) {
+			cs.Continued++
+			if err := continueAfterRecovery(imgDir, c.Cfg, rc.U, rc.OO, res.Obs, cs.Continued%3, cp); err != nil {
+				return err
+			}
 		}
 		if !co.CheckState {
 			return nil
@@ -407,6 +456,21 @@ func explorePowerLoss(c Case, rc *recording, st *Stats) (plStats, error) {
 						cp[k] = true
 					}
 					masks = append(masks, cp)
+				}
+			}
+			// removals reach the disk in the order they were issued (journalled directory updates): if a
+			// removal is durable, so is every earlier one; the undone removals are a suffix (stated assumption)
+			for _, k := range masks {
+				lastRm := -1
+				for _, idx := range vol {
+					if k[idx] && rc.Evs[idx].Kind == "remove" {
+						lastRm = idx
+					}
+				}
+				for _, idx := range vol {
+					if idx < lastRm && rc.Evs[idx].Kind == "remove" {
+						k[idx] = true
+					}
 				}
 			}
 			for _, k := range masks {
